@@ -96,6 +96,10 @@ func c14Clean(err error) bool {
 
 // ---- sequences of operations on one goroutine
 
+// three-operation sequences that also run in the quick tier: a text cached by a direct
+// call, used inside a transaction (where the fault may hit), then used directly again
+var c14QuickTriples = [][]int{{0, 2, 0}, {0, 2, 7}, {1, 8, 1}, {5, 3, 5}, {4, 3, 4}, {0, 10, 0}, {7, 9, 0}, {0, 6, 0}}
+
 func c14SeqShapes(tier int) [][]int {
 	var r [][]int
 	n := len(c14OpNames)
@@ -104,11 +108,20 @@ func c14SeqShapes(tier int) [][]int {
 			r = append(r, []int{a, b})
 		}
 	}
+	r = append(r, c14QuickTriples...)
 	if tier > 0 {
 		for a := 0; a < n; a++ {
 			for b := 0; b < n; b++ {
 				for c := 0; c < n; c++ {
-					r = append(r, []int{a, b, c})
+					quick := false
+					for _, q := range c14QuickTriples {
+						if q[0] == a && q[1] == b && q[2] == c {
+							quick = true
+						}
+					}
+					if !quick {
+						r = append(r, []int{a, b, c})
+					}
 				}
 			}
 		}
@@ -148,6 +161,8 @@ func H_C14_Seq(shape int) {
 		before := s.Calls()
 		pbefore := s.gormPrepares
 		err := c14Op(db, name)
+		// closers the operation spawned finish before the next operation starts
+		verifrt.WaitAll()
 		verifrt.Assert(c14Clean(err), "C14.unclean-error")
 		stmtFault := s.FaultAt != 0 && before < s.FaultAt && s.Calls() >= s.FaultAt
 		prepFault := s.PrepareFaultAt != 0 && pbefore < s.PrepareFaultAt && s.gormPrepares >= s.PrepareFaultAt
